@@ -19,6 +19,10 @@ func Walk(node Node, f func(Node) bool) {
 		return
 	}
 
+	// trailing is a comment which follows the node's other children;
+	// it is walked last, but still before f(nil).
+	var trailing *Comment
+
 	switch node := node.(type) {
 	case *File:
 		walkList(node.Stmts, f)
@@ -27,7 +31,7 @@ func Walk(node Node, f func(Node) bool) {
 	case *Stmt:
 		for _, c := range node.Comments {
 			if !node.End().After(c.Pos()) {
-				defer Walk(&c, f)
+				trailing = &c
 				break
 			}
 			Walk(&c, f)
@@ -140,7 +144,7 @@ func Walk(node Node, f func(Node) bool) {
 	case *CaseItem:
 		for _, c := range node.Comments {
 			if c.Pos().After(node.Pos()) {
-				defer Walk(&c, f)
+				trailing = &c
 				break
 			}
 			Walk(&c, f)
@@ -159,7 +163,7 @@ func Walk(node Node, f func(Node) bool) {
 	case *ArrayElem:
 		for _, c := range node.Comments {
 			if c.Pos().After(node.Pos()) {
-				defer Walk(&c, f)
+				trailing = &c
 				break
 			}
 			Walk(&c, f)
@@ -185,6 +189,9 @@ func Walk(node Node, f func(Node) bool) {
 		panic(fmt.Sprintf("syntax.Walk: unexpected node type %T", node))
 	}
 
+	if trailing != nil {
+		Walk(trailing, f)
+	}
 	f(nil)
 }
 
